@@ -656,6 +656,25 @@ def run(ctx):
     rm_pop = any(call_name(c).endswith("_entries.pop") for c in calls(rm.node))
     rm_del = any(resolve_ext(p, rm, c) == "os.remove" for c in calls(rm.node))
     ctx.expect(rm_pop and rm_del, "R18.5", "_remove_item_from_cache", "removes the entry and its file together", rm.loc())
+    # what `_size()` measures is the files the cache registered: the entries hold complete file paths (built by _cache_file_path as
+    # join(self.path, name)), so the measuring helper must be given those paths as they are.  Re-rooting them under self.path only
+    # works when self.path is absolute (join discards it); for a relative cache directory every path is missing, the size is 0 and
+    # the bound is never enforced.
+    szm = p.get_method(FC, "_size")
+    cfp = p.get_method(FC, "_cache_file_path")
+    full_paths = any(isinstance(c, ast.Call) and (dotted(c.func) or "").endswith("path.join") and c.args
+                     and dotted(c.args[0]) == "self.path" for c in ast.walk(cfp.node))
+    sz_calls = [c for c in calls(szm.node) if "size" in call_name(c).lower() and c.args]
+    if len(sz_calls) != 1 or not full_paths:
+        ctx.unsure("R18.5", "_size[registered paths]", "the size is not computed by one call over the registered paths, or the "
+                   "registered paths are not built by joining the cache directory and a file name", szm.loc())
+    else:
+        c0 = sz_calls[0]
+        over_entries = "_entries" in ast.unparse(c0.args[0])
+        rooted = [a for a in list(c0.args[1:]) + [k.value for k in c0.keywords] if "self.path" in ast.unparse(a)]
+        ctx.expect((over_entries and not rooted) if over_entries else None, "R18.5", "_size[registered paths]",
+                   "the size on disk is taken over the registered paths as stored (complete paths), not re-rooted under the cache "
+                   "directory a second time", szm.loc(c0), derived=ast.unparse(c0))
     # enlargement only when the request alone exceeds the limit
     enl = [n for n in own_walk(gi.node) if isinstance(n, ast.Assign) and any(
         (dotted(t) or "").endswith("config.max_size_bytes") or (dotted(t) or "").endswith("config.max_size") for t in n.targets)]
@@ -755,7 +774,7 @@ def run(ctx):
     ctx.require_count("R18.2", 6)
     ctx.require_count("R18.3", 9)
     ctx.require_count("R18.4", 4)
-    ctx.require_count("R18.5", 10)
+    ctx.require_count("R18.5", 12)
     ctx.require_count("R18.6", 2)
     ctx.require_count("R18.7", 1)
     ctx.functions_analysed.update({f.qualname: 1 for f in fc_funcs})
